@@ -152,6 +152,12 @@ impl<'a> PrettyPrinter<'a> {
             children.get(i..=j).unwrap_or_default().iter()
         };
 
+        // The line break after a trailing line comment is among the stripped spaces.
+        let ends_with_line_comment = children
+            .as_slice()
+            .last()
+            .is_some_and(|child| child.kind() == SyntaxKind::LineComment);
+
         let mut peek_hashed_arg = false;
         let inner = self.convert_flow_like_iter(ctx, children, |ctx, child| {
             let at_hashed_arg = peek_hashed_arg;
@@ -182,11 +188,16 @@ impl<'a> PrettyPrinter<'a> {
                 }
             }
         });
-        if self.attr_store.is_multiline(args.to_untyped()) {
-            ((self.arena.line_() + inner).nest(self.config.tab_spaces as isize)
-                + self.arena.line_())
-            .group()
-            .parens()
+        if ends_with_line_comment || self.attr_store.is_multiline(args.to_untyped()) {
+            // A trailing line comment must not swallow the closing parenthesis.
+            let close = if ends_with_line_comment {
+                self.arena.hardline()
+            } else {
+                self.arena.line_()
+            };
+            ((self.arena.line_() + inner).nest(self.config.tab_spaces as isize) + close)
+                .group()
+                .parens()
         } else {
             inner.parens()
         }
